@@ -59,6 +59,24 @@ pub use crate::sample::Sample;
 pub use crate::synchro::{FftFixedIn, FftFixedInOut, FftFixedOut};
 pub use crate::windows::{calculate_cutoff, WindowFunction};
 
+/// Verification hook (only with cargo feature `rubato_verif`): read-only snapshot of a
+/// resampler's private control state. For the FFT types `needed_input_size` and
+/// `current_buffer_fill` carry `fft_size_in` and `fft_size_out`.
+#[cfg(feature = "rubato_verif")]
+#[derive(Debug, Clone)]
+pub struct VerifState {
+    pub last_index: f64,
+    pub resample_ratio: f64,
+    pub target_ratio: f64,
+    pub chunk_size: usize,
+    pub needed_input_size: usize,
+    pub current_buffer_fill: usize,
+    pub saved_frames: usize,
+    pub frames_needed: usize,
+    pub buffer_len: usize,
+    pub mask: Vec<bool>,
+}
+
 /// A resampler that is used to resample a chunk of audio to a new sample rate.
 /// For asynchronous resamplers, the rate can be adjusted as required.
 ///
